@@ -233,7 +233,7 @@ Section EX.
     EI t (length done) st -> EI t (length t) st'.
   Proof.
     intro CB. induction l as [|n r IH]; intros done st st' Ht H I.
-    - injection H as <-. rewrite Ht, app_nil_r. exact I.
+    - injection H as <-. replace (length t) with (length done) by (rewrite Ht, app_nil_r; reflexivity). exact I.
     - cbn [ser_loop] in H.
       destruct (ser_node compress limit t st (N.of_nat (length done) + 1) n) as [st1| | |] eqn:E; try discriminate.
       cbn [bind] in H.
